@@ -87,7 +87,39 @@ def positions(rng, text, k):
     return out
 
 
-def session(exe, text, edits, seed, per_method=3, timeout=20.0):
+def surrogate_edits(rng, text, k):
+    """didChange ranges whose start and/or end column lies BETWEEN the two UTF-16 code units of a character outside the BMP
+    (LSP leaves the meaning open; the server must stay alive and keep answering), plus columns far past the line end.
+    [(l1, c1, l2, c2, insertion)] with (l1, c1) <= (l2, c2)"""
+    lines = text.split("\n")
+    mids = []
+    for l, s in enumerate(lines):
+        col = 0
+        for ch in s:
+            if ord(ch) >= 0x10000:
+                mids.append((l, col + 1))
+                col += 2
+            else:
+                col += 1
+    out = []
+    for _ in range(k):
+        if not mids:
+            break
+        a = rng.choice(mids)
+        r = rng.random()
+        if r < 0.4:
+            b = a
+        elif r < 0.7:
+            b = rng.choice([m for m in mids if m >= a])
+        else:
+            b = (a[0], a[1] + rng.choice([0, 1, 2, 5, 10 ** 6]))
+        if rng.random() < 0.25:
+            a = (a[0], max(0, a[1] - rng.choice([1, 2, 3])))
+        out.append((a[0], a[1], b[0], b[1], rng.choice(["", "x", "\U0001F600", " ", "\n", "y := 1;"])))
+    return out
+
+
+def session(exe, text, edits, seed, per_method=3, timeout=20.0, raw_edits=()):
     """opens text, fires all request kinds, applies the edits (each followed by requests again), shuts down.
     returns dict(ok, problem, transcript)"""
     import random
@@ -136,6 +168,22 @@ def session(exe, text, edits, seed, per_method=3, timeout=20.0):
             bad = collect(fire())
             if bad:
                 bad["after_edits"] = True
+                return bad
+        for (l1, c1, l2, c2, ins) in raw_edits:
+            s.change(URI, [{"range": {"start": {"line": l1, "character": c1}, "end": {"line": l2, "character": c2}}, "text": ins}], version)
+            version += 1
+            try:
+                r = s.request("$/verif/text", {"uri": URI}, timeout=timeout)
+            except Exception as e:  # noqa
+                r = None
+            if not isinstance(r, dict) or not isinstance(r.get("result"), str):
+                return dict(ok=False, problem="the server does not know the document any more after a didChange whose range touches the "
+                            "middle of a surrogate pair: %r" % (r,), text=cur, raw_edit=[l1, c1, l2, c2, ins], after_raw_edit=True)
+            cur = r["result"]
+            bad = collect(fire())
+            if bad:
+                bad["raw_edit"] = [l1, c1, l2, c2, ins]
+                bad["after_raw_edit"] = True
                 return bad
         _, code = s.shutdown_exit(timeout=10.0)
         if code != 0:
@@ -223,6 +271,13 @@ def run(ctx):
                 edits.append((cs, ce, ins))
                 cur = editgen.apply_change(cur, cs, ce, ins)
         jobs.append((t, edits, ctx.seed * 7919 + j))
+    # edits whose positions fall between the halves of a surrogate pair (documents with characters outside the BMP)
+    astral = ["proc main() { // \U0001F600\U0001F600 x\n  printc('\U0001F600'); printc('\U0001D11E'); }\n",
+              "// \U0001F600\nproc main() {\n  var a\U0001F600: int; // \U0001D11E\U0001D11E\n}\n",
+              "\U0001F600", "'\U0001F600'\U0001F600'\U0001F600", "type t = int; // \U0001F600\n// \U0001F600\U0001F600\U0001F600\nproc main() {}"]
+    for j in range(24 if ctx.thorough() else 8):
+        t = rng.choice(astral)
+        jobs.append((t, [], ctx.seed * 104729 + j, 1, 20.0, surrogate_edits(rng, t, rng.randint(1, 3))))
 
     def one(job):
         return session(exe, *job)
@@ -234,7 +289,7 @@ def run(ctx):
         if r.get("ok"):
             continue
         # no alarms from timing: must reproduce in three fresh processes
-        again = [session(exe, *job, timeout=40.0) for _ in range(3)]
+        again = [session(exe, job[0], job[1], job[2], timeout=40.0, raw_edits=(job[5] if len(job) > 5 else ())) for _ in range(3)]
         if all(not a.get("ok") for a in again):
             sess_bad.append((job, again[0]))
     known_sess = 0
@@ -257,6 +312,7 @@ def run(ctx):
                     continue
         if len([1 for v in ctx.violations]) < 4:
             ctx.violation(dict(kind="oracle", property="C02", what=r.get("problem"), text=job[0], edits=job[1], seed=job[2],
+                               raw_edits=[list(e) for e in job[5]] if len(job) > 5 else [],
                                last_text=r.get("text"), method=r.get("method"), position=r.get("position")))
     if not ctx.violations:
         if judge is None:
@@ -281,13 +337,15 @@ def run(ctx):
         "rule": "library: AnalyzedSource::new + errors() under catch_unwind on the mixed stream (valid, damaged, token soup, arbitrary "
                 "Unicode, CR/CRLF variants, truncated documents, nesting up to depth 400) and AnalyzedSource::update on edit histories; "
                 "binary: %d sessions = didOpen + all 13 request kinds at random / boundary / out-of-range positions, 0-3 ranged edits "
-                "each followed by the requests again, shutdown/exit; non-trivial = distinct document that is not a valid program" % len(jobs),
+                "each followed by the requests again, shutdown/exit; on documents with characters outside the BMP also edits whose range "
+                "starts / ends between the two UTF-16 units of such a character or far behind the line end; non-trivial = distinct document that is not a valid program" % len(jobs),
         "input_histogram": hist,
         "library_documents": len(docs),
         "histories": len(hl),
         "history_panics_predicted_by_model": known_panics,
         "binary_sessions": len(jobs),
         "binary_requests": sum((len(j[1]) + 1) * (10 * 7 + 3) for j in jobs),
+        "sessions_with_edits_inside_surrogate_pairs": sum(1 for j in jobs if len(j) > 5),
         "traces_validated_against_impl": len(docs) + len(hl),
         "kernel_judge_cases": nk,
         "correspondence_mismatches": len(mism) + len(kfail) + len(hmism),
@@ -295,9 +353,12 @@ def run(ctx):
         "samples": [docs[i][1][:200] for i in rng.sample(range(len(docs)), 3)],
         "explanation": "Proved for ALL texts (Props/C02.v): AnalyzedSource::new never panics and terminates (lexer, parser with its fuel, "
                        "table construction, semantic analysis: C02_new_doc_total), errors() never panics and every published range lies "
-                       "inside the document (C02_errors_total, C02_errors_inside). Validated by correspondence + fuzzing, not proved: the "
-                       "13 request handlers on arbitrary documents/positions (partial handler theorems are in C12-C17), the server runtime "
-                       "(stack depth: documents nested up to 400 levels are part of every run). AnalyzedSource::update CAN panic (known "
+                       "inside the document (C02_errors_total, C02_errors_inside); every request handler (go-to x4, references, rename, "
+                       "prepareRename, hover, signature help, completion, folding, semantic tokens) returns a value - never reaches a panic "
+                       "site - on the document of every text at every position (C02_handlers_total; the well-formedness predicates of the "
+                       "per-feature robustness theorems hold for every parser output: C02_new_doc_nav_wf, _cursor_pre, _compl_wf, "
+                       "_fold_pre, _doc_wf). Validated by correspondence + fuzzing, not proved: the formatting handler, the server runtime "
+                       "(one response per request, process alive; stack depth: documents nested up to 400 levels are part of every run). AnalyzedSource::update CAN panic (known "
                        "finding C02-incparse-panic, class: predicted by the model of the pinned incremental parser).",
     })
     ctx.level = "other"
@@ -318,6 +379,6 @@ def replay(ctx, path):
         print(exe + ":", o[:300])
         return 1 if (o.split()[0] != "0" or " 1" == o[-2:]) else 0
     exe, _ = common.build_server()
-    res = session(exe, r["text"], [tuple(e) for e in r.get("edits", [])], r.get("seed", 1))
+    res = session(exe, r["text"], [tuple(e) for e in r.get("edits", [])], r.get("seed", 1), raw_edits=[tuple(e) for e in r.get("raw_edits", [])])
     print(res)
     return 0 if res.get("ok") else 1
